@@ -304,3 +304,11 @@ package expressions
 //@   ensures result == (lv > rv)
 //@ func _gtEqF [C06]
 //@   ensures result == (lv >= rv)
+
+// ParseBlock: a token that ends a command (new line, `;`, `|`, `?`) hands the command parsed so far to
+// append() and forgets it - the next token starts from no command (otherwise the previous command would
+// be appended a second time).
+//@ func (*BlockT).ParseBlock [C20]
+//@   check none
+//@   scope functional
+//@   loop 1 step imp(old(blk.expression[blk.charPos]) == '?' || old(blk.expression[blk.charPos]) == ';' || old(blk.expression[blk.charPos]) == '\n' || old(blk.expression[blk.charPos]) == '|', tree == nil)
